@@ -384,14 +384,27 @@ def build_from_product_mps_covering(ctx, rng, i):
     from tenpy.networks.mps import MPS
     from vf import dense
     L = int(rng.integers(3, 8))
-    sites, kind = dense.make_sites(rng, L, str(rng.choice(['spinhalf', 'spinhalf_Sz', 'spin1_Sz', 'fermion_N', 'boson_N'])))
-    perm = [int(x) for x in rng.permutation(L)]
-    groups = []
-    k = 0
-    while k < L:
-        n = int(rng.integers(1, 4))
-        groups.append(tuple(sorted(perm[k:k + n])))
-        k += n
+    kinds = ['spinhalf', 'spinhalf_Sz', 'spin1_Sz', 'fermion_N', 'boson_N', 'spinhalf_parity', 'fermion_parity']
+    if rng.random() < 0.35:
+        # several entangled pairs crossing the same bonds: the singular values of the crossing pairs are combined (and permuted
+        # with the pipe of the combined bond legs)
+        m = int(rng.integers(2, 5))
+        L = 2 * m
+        sites, kind = dense.make_sites(rng, L, str(rng.choice(['spinhalf_Sz', 'spinhalf_parity', 'fermion_parity', 'fermion_N', 'spinhalf'])))
+        shift = int(rng.integers(1, m + 1))
+        left = list(range(m))
+        right = [m + (k + shift) % m for k in range(m)]
+        groups = [tuple(sorted((a, b))) for a, b in zip(left, right)]
+        ctx.count('covering.crossing_pairs')
+    else:
+        sites, kind = dense.make_sites(rng, L, str(rng.choice(kinds)))
+        perm = [int(x) for x in rng.permutation(L)]
+        groups = []
+        k = 0
+        while k < L:
+            n = int(rng.integers(1, 4))
+            groups.append(tuple(sorted(perm[k:k + n])))
+            k += n
     local, locvecs = [], []
     for g in groups:
         ss = [sites[j] for j in g]
@@ -595,6 +608,45 @@ def build_segment(ctx, rng, i):
             ctx.violation('segment.convert_form:state-differs', '', case)
     except Exception as e:
         ctx.violation('segment.convert_form:raises-%s' % type(e).__name__, traceback.format_exc()[-500:], case)
+    # repeated canonicalisation of a segment: the gauge rotations of the two boundary legs are accumulated in `segment_boundaries`
+    # (U_L, V_R); U_L . segment . V_R (norm included) is what the segment represents inside the original environment and must follow
+    # exactly the local operators applied, however often canonical_form() runs in between
+    def seg_full(sg):
+        Tn = dense.mps_to_vector(sg)
+        UL, VR = sg.segment_boundaries
+        if UL is not None:
+            Tn = np.tensordot(UL.itranspose(['vL', 'vR']).to_ndarray(), Tn, axes=[1, 0])
+            Tn = np.tensordot(Tn, VR.itranspose(['vL', 'vR']).to_ndarray(), axes=[Tn.ndim - 1, 0])
+        return Tn
+
+    try:
+        seg2 = psi.extract_segment(first, last)
+        F = seg_full(seg2)
+        for rep in range(int(rng.integers(2, 4))):
+            j = int(rng.integers(0, n))
+            st = seg2.sites[j]
+            names = sorted(nm for nm in st.opnames if not st.op_needs_JW(nm) and not np.any(st.get_op(nm).qtotal != 0) and nm != 'Id')
+            if not names:
+                break
+            nm = names[int(rng.integers(len(names)))]
+            O = st.get_op(nm).to_ndarray() + 0.7 * np.eye(st.dim)  # non-unitary, invertible-ish, charge neutral
+            from tenpy.linalg import np_conserved as npc
+            op = st.get_op(nm) + 0.7 * st.get_op('Id')
+            seg2.apply_local_op(j, op, unitary=False, renormalize=False)  # canonicalises the segment again
+            F = np.moveaxis(np.tensordot(O, F, axes=[1, j + 1]), 0, j + 1)
+            got = seg_full(seg2)
+            ctx.count('segment.recanonicalised')
+            if got.shape != F.shape or np.linalg.norm(got - F) > 1e-8 * max(1.0, np.linalg.norm(F)):
+                ctx.violation('segment.canonical_form:boundary-rotations-not-accumulated', 'after %d local operators with re-canonicalisation: '
+                              '|U_L.segment.V_R - expected| = %g (|expected| = %g)' %
+                              (rep + 1, np.linalg.norm(got - F) if got.shape == F.shape else -1, np.linalg.norm(F)), case)
+                break
+    except Exception as e:
+        tb = traceback.format_exc()
+        if '/tenpy/' in tb:
+            ctx.violation('segment.apply_local_op:raises-%s' % type(e).__name__, tb[-500:], case)
+        else:
+            raise
     ctx.sig(('segment', kind, L, first, last), nontrivial=True)
 
 
